@@ -211,6 +211,26 @@ def end_to_end(v):
                 v.violation(f'ill-formed selector ({name}): {ex}', {}, signature={'component': 'e2e:escape'})
             finally:
                 w.close()
+    # (4b) "for a rekey they equal those of the replaced SA" - on the requester's side too: an answer to a rekey that NARROWS the selectors is not installed
+    for which in (W.TSR, W.TSI):
+        w = wd.World(seed=common.SEED, opts_by_ep={'A': {'peer_subnet': '192.168.0.0/24', 'my_subnet': '192.168.0.0/24'}, 'B': {'my_subnet': '192.168.0.0/24', 'peer_subnet': '192.168.0.0/24'}})
+        try:
+            w.establish('A')
+            a, b = w.sas('A')[0], w.sas('B')[0]
+            req = w.expire('A', bytes(a.child_sas[0].inbound_spi), False)
+            res = bytes(w.dispatch('B', req, 'A'))
+            m = W.dec_message(res, probes.keys_of(b.my_crypto))
+            inner = [dict(p, ts=[dict(p['ts'][0], saddr=bytes([192, 168, 0, 0]), eaddr=bytes([192, 168, 0, 127]))]) if p['t'] == which else p for p in m['inner']]
+            newsa = sum(1 for r in w.kernel['A'].requests if r['kind'] == 'NEWSA')
+            w.dispatch('A', probes.seal(b, m['xchg'], True, m['mid'], inner), 'B')
+            n += 1
+            if sum(1 for r in w.kernel['A'].requests if r['kind'] == 'NEWSA') != newsa:
+                v.violation(f'the answer to a CHILD_SA rekey with a NARROWED {"TSr" if which == W.TSR else "TSi"} was installed by the requester (a rekeyed SA has the selectors of the one it replaces)',
+                            {}, signature={'component': 'e2e:rekey_narrowed'})
+        except wd.Escape as ex:
+            v.violation(f'narrowed rekey answer: {ex}', {}, signature={'component': 'e2e:escape'})
+        finally:
+            w.close()
     for name in ('widen tsr', 'widen tsi', 'drop transport mode', 'add transport mode'):
         for stage in ('auth', 'child'):
             mode = 'tunnel' if name == 'add transport mode' else 'transport'
